@@ -383,7 +383,11 @@ def meltTokens (cx : Cx) (qid : Int) (ps : List Proof) : PM MeltQ := do
     | .ok mq =>
       -- settleQuotesInternally
       match ← eff (.lnInvoiceStatus mq.hash) with
-      | none => throw (2, "ln")
+      | none =>
+        -- F15: nothing was settled; set the quote back to unpaid and release the inputs (errors only logged)
+        let _ ← eff (.updateMeltQuote q.id 0 .unpaid)
+        let _ ← eff (.removePending (ps.map (·.secret)))
+        throw (2, "ln")
       | some _ =>
         dbTry (.updateMeltQuote q.id (mq.hash + 1) .paid)
         dbTry (.updateMintQuoteState mq.id .paid)
@@ -526,7 +530,7 @@ inductive Op where
   | mint (q : Int) (outs : List BMsg) (sig : QSig)
   | swap (ps : List Proof) (outs : List BMsg) (outputsVerdict : Option E)
   | meltQuote (inv : InvReq) (unitSat : Bool) (mpp : Option UInt64)
-  | melt (q : Int) (ps : List Proof) (script : List LnAns)
+  | melt (q : Int) (ps : List Proof) (script : List LnAns) (lnFail : Bool)
   | meltState (q : Int) (script : List LnAns)
   | checkState (ys : List YRef) (script : List LnAns)
   | restore (bs : List Nat)
@@ -595,8 +599,9 @@ def applyOp (s : Sess) : Op → Sess × Res
     match r with
     | .ok _ => ({ s1 with w := { s1.w with nextMeltQ := qid + 1 } }, .meltQuote r)
     | .error _ => (s1, .meltQuote r)
-  | .melt q ps script =>
-    let (s1, r) := s.runPM (meltTokens (cxOf s) q ps) script
+  | .melt q ps script lnFail =>
+    let s0 := { s with w := { s.w with ln := { s.w.ln with failInvoiceStatus := if lnFail then 1 else 0 } } }
+    let (s1, r) := s0.runPM (meltTokens (cxOf s) q ps) script
     (s1, .melt r)
   | .meltState q script =>
     let (s1, r) := s.runPM (getMeltQuoteState q) script
